@@ -16,7 +16,7 @@ BATCH = 40
 
 
 def gen_cases(tier, seed):
-    nb = 75 if tier == "quick" else 3750
+    nb = 150 if tier == "quick" else 5000
     cases = [{"seed": [seed, i], "count": BATCH} for i in range(nb)]
     # larger systems (n up to 300): a few in the quick tier, many in the thorough tier
     nbig = 6 if tier == "quick" else 400
@@ -125,7 +125,7 @@ def run_case(case):
         else:
             mode = "regular"
         trans = bool(rng.random() < 0.4)
-        guess = str(rng.choice(["none", "zero", "exact", "random", "other"]))
+        guess = str(rng.choice(["none", "zero", "exact", "random", "other", "rhs_itself", "int_zero", "readonly", "kept"]))
         bscale = 10.0 ** rng.uniform(-4.0, 4.0)
         desc = {"n": n, "fmt": fmt, "solver": solver, "mode": mode, "trans": trans, "guess": guess}
 
@@ -198,6 +198,19 @@ def run_case(case):
             init = lambda: np.copy(xo)  # noqa: E731
             bump("guess_other_unsymmetric", int(not sym))
             bump("gmres_trans_guess_other_unsymmetric", int(not sym and trans and solver == "GMRES"))
+        elif guess == "rhs_itself":
+            init = lambda: b  # noqa: E731  (the "x0 = b" start: the guess is the caller's right-hand side array itself)
+        elif guess == "int_zero":
+            init = lambda: np.zeros(n, dtype=np.int64)  # noqa: E731
+        elif guess == "readonly":
+            gro = np.array(xex + rng.normal(size=n) * 1e-3 * np.linalg.norm(xex), copy=True)
+            gro.flags.writeable = False
+            init = lambda: gro  # noqa: E731
+        elif guess == "kept":
+            # the caller keeps its guess vector (and hands out the same object whenever asked)
+            gkept = np.array(xex + rng.normal(size=n) * 1e-2 * np.linalg.norm(xex), copy=True)
+            gkept_copy = np.copy(gkept)
+            init = lambda: gkept  # noqa: E731
         elif guess == "random":
             g0 = xex + rng.normal(size=n) * np.linalg.norm(xex) * 10.0 ** rng.uniform(-6, 0)
             init = lambda: np.copy(g0)  # noqa: E731
@@ -229,8 +242,12 @@ def run_case(case):
         bump("fmt_" + fmt)
         keys.append("%s-%s-%s-%d-%d-%s" % (solver, kind, fmt, n, k + 1000 * case["seed"][-1], guess))
         if not np.array_equal(A, Acopy) or not np.array_equal(b, bcopy):
-            viol.append({"what": "%s modified its input matrix or right-hand side" % solver,
-                         "key": {"solver": solver, "kind": "input-modified"}})
+            viol.append({"what": "%s modified its input matrix or right-hand side (guess=%s)" % (solver, guess),
+                         "key": {"solver": solver, "kind": "input-modified", "guess": guess}})
+            b = bcopy   # judge the result against the system that was posed
+        if guess == "kept" and not np.array_equal(gkept, gkept_copy):
+            viol.append({"what": "%s modified the initial guess vector owned by the caller" % solver,
+                         "key": {"solver": solver, "kind": "guess-modified"}})
         x = np.asarray(x, dtype=float)
         if x.shape != (n,) or not np.all(np.isfinite(x)):
             viol.append({"what": "%s returned a non-finite or mis-shaped vector" % solver,
@@ -289,7 +306,7 @@ def finalize(agg, tier):
     return {
         "rule": "random square systems n in 1..40 (and a share with n in 41..300): SPD / symmetric indefinite / KKT-structured / unsymmetric dense and "
                 "sparse with cond <= 1e3 and scale 1e-2..1e2, right-hand sides of norm 1e-4..1e4, COO/CSR/CSC input, "
-                "forward and transposed solves, initial guess none/zero/exact/random/solution of the other orientation; structurally singular systems "
+                "forward and transposed solves, initial guess none/zero/exact/random/solution of the other orientation/the right-hand side array itself/integer zeros/a read-only vector/a vector the caller keeps; structurally singular systems "
                 "(zero row, zero column, two rows sharing one column, all zero) for LU; cyclic shifts with n>=25 for "
                 "GMRES stagnation; a system is non-trivial when the solver returned a vector that was then judged by "
                 "the dense residual oracle, or raised the dedicated error on a singular/stagnating system; distinct by "
